@@ -964,6 +964,69 @@ Proof.
   - econstructor. apply FIn. apply alive_heap_ne; auto. eapply rstar_mono; eauto.
 Qed.
 
+(* ------------------------------------------------------------------ carriers: heaps that hold only references *)
+
+(* replacing a held object by one that holds no heap: the heaps it held become pending decrements *)
+Lemma unhold_root_cnt : forall st w r ro ro', CntW st w -> get_root st r = Some ro -> r_holds ro' = [] ->
+  CntW (set_root st r (Some ro')) (r_holds ro ++ w).
+Proof.
+  intros st w r ro ro' [H1 H2] Hr Hh. split; auto. intros x.
+  pose proof (set_root_holders st r ro (Some ro') x Hr) as S. simpl in S. rewrite Hh in S. simpl in S.
+  rewrite cnt_app. specialize (H1 x).
+  change (rc (set_root st r (Some ro')) x) with (rc st x). lia.
+Qed.
+
+Lemma set_root_graph : forall st r ro', Inv st -> RootInv st ->
+  (forall s v, In (s, v) (r_vals ro') -> exists k, In k (r_holds ro') /\ rstar st k v) ->
+  Inv (set_root st r (Some ro')) /\ RootInv (set_root st r (Some ro')).
+Proof.
+  intros st r ro' HI HR Hcov.
+  assert (HE : heaps (set_root st r (Some ro')) = heaps st) by reflexivity.
+  destruct (heaps_eq_facts _ _ HE) as [F1 [F2 [F3 F4]]]. split.
+  - eapply Inv_heaps_eq; eauto.
+  - assert (RL : refs_le st (set_root st r (Some ro'))) by (apply eq_refs_le; auto).
+    intros r' x s v Hh Hin. unfold held in Hh. rewrite get_root_set_root in Hh. destruct (Nat.eqb r' r).
+    + destruct (nth_error (roots st) r); try discriminate. inversion Hh; subst.
+      destruct (Hcov _ _ Hin) as [k [K1 K2]]. exists k; split; auto. eapply rstar_mono; eauto.
+    + destruct (HR _ _ _ _ Hh Hin) as [k [K1 K2]]. exists k; split; auto. eapply rstar_mono; eauto.
+Qed.
+
+Lemma rstar_no_refs : forall st a v, all_refs st a = [] -> rstar st a v -> v = a.
+Proof. intros st a v Hn R. inversion R; subst; auto. rewrite Hn in H. destruct H. Qed.
+
+Lemma foreign_vals_In : forall a vals s v, In (s, v) (foreign_vals a vals) -> In (s, v) vals /\ v <> a.
+Proof.
+  unfold foreign_vals. intros a vals s v H. apply filter_In in H. destruct H as [H1 H2]. split; auto. simpl in H2.
+  destruct (Nat.eqb_spec v a); auto; discriminate.
+Qed.
+
+Lemma is_nil_true : forall A (l : list A), is_nil l = true -> l = [].
+Proof. destruct l; simpl; intros; auto; discriminate. Qed.
+
+(* FrozenHeap::into_ref_impl on an arena-empty heap, with the shortcut as the code has it: when the shortcut fires
+   the heap has no references, so (by RootInv) the object exposed no foreign value through it *)
+Lemma seal_carrier_wf : forall st b a rb ha k vals, WF st -> root1 st b KCarrier = Some (rb, a) -> get_heap st a = Some ha ->
+  (forall s v, In (s, v) vals -> In (s, v) (r_vals rb)) ->
+  WF (seal_carrier all_sites st b a ha k vals).
+Proof.
+  intros st b a rb ha k vals H Eb Ha Hsub. unfold WF in *. unfold seal_carrier. cbn [all_sites].
+  destruct (root1_some _ _ _ _ _ Eb) as [Hb Hba]. pose proof H as [HC [HI HR]].
+  destruct (is_nil (h_refs ha ++ h_mrefs ha)) eqn:En.
+  - apply is_nil_true in En.
+    unfold drop_refs. apply release_wf. split.
+    + pose proof (unhold_root_cnt st [] b rb (mkRoot k [] (foreign_vals a vals)) HC Hb eq_refl) as U.
+      rewrite Hba in U. simpl in U. exact U.
+    + apply set_root_graph; auto. simpl. intros s v Hin. apply foreign_vals_In in Hin. destruct Hin as [Hin Hne].
+      exfalso. apply Hne. apply (rstar_no_refs st a v). { unfold all_refs. rewrite Ha. auto. }
+      eapply held_cov; eauto.
+  - assert (W1 : WFW (upd_heap st a f_mark_sealed) []).
+    { apply neutral_keeps_wf; auto. apply neutral_mark. apply keeps_mark. }
+    destruct W1 as [C1 [I1 R1]]. split.
+    + eapply same_holds_cnt; eauto.
+    + apply set_root_graph; auto. simpl. intros s v Hin. exists a. split; simpl; auto.
+      eapply rstar_mono. apply eq_refs_le. apply (keeps_graph st a f_mark_sealed keeps_mark). eapply held_cov; eauto.
+Qed.
+
 Theorem step_wf : forall st o, WF st -> WF (step st o).
 Proof.
   intros st o H. unfold WF in *. unfold step. destruct o; cbn [step_cfg all_sites].
@@ -1127,6 +1190,30 @@ Proof.
     + intros s v Hin. exists h. split; auto. eapply rstar_mono.
       * apply eq_refs_le. apply (keeps_graph _ h f_mark_sealed keeps_mark).
       * eapply rstar_mono. apply eq_refs_le; eauto. eapply Cv; eauto.
+  - (* OpNewCarrier *)
+    pose proof (new_heap_wf st [] H) as N. destruct (new_heap st) as [st1 h]. simpl in N.
+    destruct N as [N1 _]. apply add_root_wf; simpl; auto. intros s v [].
+  - (* OpAddToCarrier *)
+    destruct (handle st k) as [[rk hv]|] eqn:Ek; auto.
+    destruct (root1 st b KCarrier) as [[rm a]|] eqn:Em; auto.
+    destruct (handle_some _ _ _ _ Ek) as [Hk [s0 Hv]].
+    destruct (root1_some _ _ _ _ _ Em) as [Hm Hma].
+    pose proof H as [HC [HI HR]].
+    assert (Aa : alive st a = true) by (eapply root1_alive; eauto).
+    assert (Ak : forall x, In x (r_holds rk) -> alive st x = true) by (intros; eapply (wf_held_alive st [] k rk); eauto).
+    destruct (fold_addref add_ref a (fun st x => add_ref_frame st a x) (fun st w x => add_ref_cnt st w a x) (r_holds rk) st [] HC Ak Aa) as [C1 [F1 In1]].
+    pose proof F1 as [R [E [L Ro]]].
+    destruct (HR k rk s0 hv Hk) as [k0 [K1 K2]]. { rewrite Hv. simpl; auto. }
+    apply add_val_wf.
+    + eapply hframe_wf; eauto.
+    + intros ro Hr. rewrite (get_root_roots _ _ Ro) in Hr. rewrite Hm in Hr. inversion Hr; subst.
+      exists a. rewrite Hma. split; simpl; auto. econstructor. apply In1; eauto. eapply rstar_mono; eauto.
+  - (* OpSealCarrier *)
+    destruct (root1 st b KCarrier) as [[rb a]|] eqn:Eb; auto.
+    destruct (get_heap st a) as [ha|] eqn:Ha; auto.
+    destruct g.
+    + eapply seal_carrier_wf; eauto.
+    + eapply seal_carrier_wf; eauto. intros s v Hin. destruct (r_vals rb); simpl in *; tauto.
   - (* OpClone *)
     destruct (get_root st r) as [ro|] eqn:Hr; auto.
     pose proof H as [HC [HI HR]].
@@ -1278,6 +1365,16 @@ Definition hist_builder : list op :=
 Definition hist_globals : list op := hist_builder ++ [OpBuild 2; OpNewModule; OpEval 3 2 [(7, 5)]; OpDrop 2].
 Definition hist_from_globals : list op := hist_builder ++ [OpBuild 2; OpFromGlobals 2; OpDrop 2].
 
+(* carriers: the handle is moved into a fresh heap in which nothing is allocated; module and original handle dropped *)
+Definition hist_carrier_open : list op := hist_base ++ [OpGetOwned 0 1; OpNewCarrier; OpAddToCarrier 1 2 0].
+Definition hist_carrier : list op := hist_carrier_open ++ [OpSealCarrier 2 false; OpDrop 1; OpDrop 0].
+(* ... twice: new heap -> new heap -> module heap, intermediate handle dropped too *)
+Definition hist_carrier_chain : list op :=
+  hist_carrier_open ++ [OpSealCarrier 2 false; OpNewCarrier; OpAddToCarrier 2 3 0; OpSealCarrier 3 false; OpDrop 2; OpDrop 1; OpDrop 0].
+(* GlobalsBuilder::new() holding only the foreign value, built into a Globals *)
+Definition hist_carrier_globals : list op :=
+  hist_base ++ [OpGetOwned 0 1; OpNewCarrier; OpAddToCarrier 1 2 5; OpSealCarrier 2 true; OpDrop 1; OpDrop 0].
+
 Ltac uaf r ro s v w :=
   exists r, ro, s, v, w; split; [reflexivity | split; [simpl; auto | split; [try constructor | reflexivity]]].
 
@@ -1304,6 +1401,37 @@ Proof. uaf 3 (mkRoot KOpen [2] [(7, 0)]) 7 0 0. Qed.
 
 Lemma site_from_globals_needed : use_after_free (run_cfg (without SiteFromGlobals) hist_from_globals).
 Proof. uaf 3 (mkRoot KFrozen [2] [(5, 0)]) 5 0 0. Qed.
+
+(* the empty-heap shortcut of into_ref_impl must also test the reference list *)
+Lemma seal_refs_check_needed : use_after_free (run_cfg (without SiteSealRefsCheck) hist_carrier).
+Proof. uaf 2 (mkRoot KHandle [] [(0, 0)]) 0 0 0. Qed.
+
+Lemma seal_refs_check_needed_chain : use_after_free (run_cfg (without SiteSealRefsCheck) hist_carrier_chain).
+Proof. uaf 3 (mkRoot KHandle [] [(0, 0)]) 0 0 0. Qed.
+
+Lemma seal_refs_check_needed_globals : use_after_free (run_cfg (without SiteSealRefsCheck) hist_carrier_globals).
+Proof. uaf 2 (mkRoot KGlobals [] [(5, 0)]) 5 0 0. Qed.
+
+Lemma carrier_add_reference_needed : use_after_free (run_cfg (without SiteAddToBuilder) hist_carrier).
+Proof. uaf 2 (mkRoot KHandle [] [(0, 0)]) 0 0 0. Qed.
+
+Lemma carriers_safe :
+  alive (run hist_carrier) 0 = true /\ alive (run hist_carrier) 1 = true /\
+  alive (run hist_carrier_chain) 0 = true /\ alive (run hist_carrier_chain) 1 = true /\ alive (run hist_carrier_chain) 2 = true /\
+  get_root (run hist_carrier_chain) 3 = Some (mkRoot KHandle [2] [(0, 0)]) /\
+  all_refs (run hist_carrier_chain) 2 = [1] /\ all_refs (run hist_carrier_chain) 1 = [0] /\
+  edges (run hist_carrier_chain) 2 = [] /\
+  alive (run (hist_carrier_chain ++ [OpDrop 3])) 0 = false /\
+  alive (run hist_carrier_globals) 0 = true /\
+  (* ... and a module made from those globals keeps the chain module heap -> carrier -> A alive on its own *)
+  alive (run (hist_carrier_globals ++ [OpFromGlobals 2; OpDrop 2])) 0 = true.
+Proof. repeat split; reflexivity. Qed.
+
+(* a carrier sealed with no references at all IS the shared empty ref: the object holds no heap *)
+Lemma empty_carrier_is_default :
+  get_root (run [OpNewCarrier; OpSealCarrier 0 true]) 0 = Some (mkRoot KGlobals [] []) /\
+  alive (run [OpNewCarrier; OpSealCarrier 0 true]) 0 = false.
+Proof. split; reflexivity. Qed.
 
 (* the same histories are safe with the real mechanism (instances of the theorem, by computation) *)
 Lemma sites_present_safe :
@@ -1339,4 +1467,18 @@ Lemma get_owned_step_needs_reference :
 Proof.
   exists (run hist_base), (OpGetOwned 0 1). split. apply run_wf.
   intros HR. destruct (HR 1 (mkRoot KHandle [] [(0, 0)]) 0 0) as [k [[] _]]. reflexivity. simpl; auto.
+Qed.
+
+Lemma seal_step_needs_refs_check :
+  exists st o, WF st /\ ~ RootInv (step_cfg (without SiteSealRefsCheck) st o).
+Proof.
+  exists (run hist_carrier_open), (OpSealCarrier 2 false). split. apply run_wf.
+  intros HR. destruct (HR 2 (mkRoot KHandle [] [(0, 0)]) 0 0) as [k [[] _]]. reflexivity. simpl; auto.
+Qed.
+
+(* ... so the invariant of the development is not preserved by the weaker shortcut *)
+Lemma seal_step_weak_breaks_wf :
+  exists st o, WF st /\ ~ WF (step_cfg (without SiteSealRefsCheck) st o).
+Proof.
+  destruct seal_step_needs_refs_check as [st [o [W N]]]. exists st, o. split; auto. intros [_ [_ HR]]. auto.
 Qed.
